@@ -25,6 +25,16 @@ void *memchr(const void *s, int c, size_t n) {
 }
 #endif
 
+/* htp_validate_hostname (pure, allocation-free; its memcpy with a symbolic length out of a symbolic-size heap object does
+ * not encode: 23 GB at 3 input bytes) is exchanged at its call sites with goto-instrument --replace-calls by this stand-in:
+ * it requires the argument to be a LIVE bstr (so a freed host name is still caught) and answers arbitrarily. */
+#if defined(C18_VALIDATE_HOSTNAME_STUB) && !defined(VNATIVE)
+int c18_validate_hostname(bstr *h) {
+  __CPROVER_assert(__CPROVER_r_ok(h, sizeof(bstr)) && __CPROVER_r_ok(h, sizeof(bstr) + h->len), "validated host name is a live bstr");
+  int r; return r;
+}
+#endif
+
 /* logging never feeds back into ownership: empty body where the unit does not link htp_util.c */
 #if defined(C18_LOG_STUB)
 void htp_log(htp_connp_t *connp, const char *file, int line, enum htp_log_level_t level, int code, const char *fmt, ...) { }
